@@ -50,10 +50,15 @@ func (r *chunkedReader) Read(p []byte) (n int, err error) {
 				// Is first chunk.
 				r.notFirstChunk = true
 			} else {
-				// skip last chunk's b"\r\n"
-				_, err = io.CopyN(ioutil.Discard, r.inner, 2)
+				// skip last chunk's b"\r\n"; anything else there is a
+				// framing error, not something to step over
+				var crlf [2]byte
+				_, err = io.ReadFull(r.inner, crlf[:])
 				if err != nil {
 					return n, err
+				}
+				if crlf != [2]byte{'\r', '\n'} {
+					return n, ErrorMessage(ErrIncompleteBody, "aws-chunked: chunk data is not followed by CRLF")
 				}
 			}
 			// read next chunk header
